@@ -1,2 +1,4 @@
 //! independent decoders / reference semantics
 pub mod preprocess;
+pub mod glyf_min;
+pub mod glyf_lite;
